@@ -15,6 +15,7 @@
 From stdpp Require Import list list_numbers.
 From Coq Require Import ZArith Lia ZifyBool.
 From Verif Require Import S2.Model C19.Spec C19.Statements.
+From Verif Require S2.Faults.
 Open Scope Z_scope.
 
 
@@ -414,6 +415,70 @@ Proof.
     + eapply sh_reorg; [exact H1|exact H2|lia].
 Qed.
 
+
+
+(* ---------- handleHeadersMsg with a failing header-store write ---------- *)
+Definition acc0 (s : state) : acc := {| a_s := s; a_batch := []; a_recvcp := false; a_finalh := 0 |}.
+Definition fault_hits (k' : Z) (a : acc) : bool :=
+  (k' =? 1) && (match a_batch a with [] => false | _ => true end).
+Definition final_core_f (k' : Z) (o : outcome) : core :=
+  match o with
+  | Return s' => core_of s'
+  | Continue a | Break a => if fault_hits k' a then core_of (a_s a) else wr (a_batch a) (core_of (a_s a))
+  end.
+
+Lemma handle_headers_f_core P now p hs k s :
+  core_of (handle_headers_f P now p hs k s) =
+  match hs with
+  | [] => core_of s
+  | _ => if negb (headers_connected hs) then core_of s
+         else final_core_f (snd (loop_f P now p k (acc0 s) hs)) (fst (loop_f P now p k (acc0 s) hs))
+  end.
+Proof.
+  unfold handle_headers_f. destruct hs as [|x t]; [reflexivity|].
+  destruct (negb _); [reflexivity|]. rewrite core_resync. fold (acc0 s).
+  destruct (loop_f _ _ _ _ _ _) as [[s'|a|a] k']; cbn [fst snd final_core_f]; [reflexivity| |];
+    fold (fault_hits k' a); (destruct (fault_hits k' a); [reflexivity|]);
+    (destruct (a_recvcp a); [rewrite core_set_cp|]; apply core_write_headers).
+Qed.
+
+Lemma lres_final_f c n o k' : lres c [] n o ->
+  final_core_f k' o = c \/ (exists pc, final_core_f k' o = rbto pc c) \/
+  (exists batch, (length batch <= n)%nat /\ final_core_f k' o = wr batch c).
+Proof.
+  intros [s' H|s' pc H|a' more H1 H2 H3|a' more H1 H2 H3]; cbn [final_core_f].
+  - left. exact H.
+  - right. left. exists pc. exact H.
+  - destruct (fault_hits k' a'); [left; exact H1|].
+    right. right. exists more. rewrite H1, H2. split; [exact H3|reflexivity].
+  - destruct (fault_hits k' a'); [left; exact H1|].
+    right. right. exists more. rewrite H1, H2. split; [exact H3|reflexivity].
+Qed.
+
+(* the same four ways, whichever write fails *)
+Theorem handle_headers_f_shape P now p hs k s :
+  hh_shape (core_of s) (length hs) (core_of (handle_headers_f P now p hs k s)).
+Proof.
+  rewrite handle_headers_f_core.
+  assert (Hsame : hh_shape (core_of s) (length hs) (core_of s)).
+  { apply (sh_wr (core_of s) (length hs) []). cbn; lia. }
+  destruct hs as [|x t]; [exact Hsame|].
+  destruct (negb (headers_connected (x :: t))) eqn:Hc; [exact Hsame|].
+  apply negb_false_iff in Hc.
+  destruct (Faults.loop_f_cases P now p (x :: t) Hc k (acc0 s)) as [[k' ->]|(bh & rest & bH & h & _ & ->)];
+    cbn [fst snd].
+  - pose proof (loop_shape P now p (x :: t) (acc0 s) Hc) as HU. cbn [acc0 a_s a_batch] in HU.
+    destruct HU as [o HL|bh backHead backH o m H1 H2 H3 HL].
+    + apply (lres_final_f _ _ _ k') in HL as [->|[[pc ->]|[batch [Hb ->]]]].
+      * exact Hsame.
+      * apply sh_rb.
+      * apply sh_wr. exact Hb.
+    + apply (lres_final_f _ _ _ k') in HL as [->|[[pc ->]|[batch [Hb ->]]]].
+      * apply (sh_reorg _ _ bh backHead backH []); [exact H1|exact H2|cbn; lia].
+      * eapply sh_reorg_rb; [exact H1|exact H2|lia].
+      * eapply sh_reorg; [exact H1|exact H2|lia].
+  - cbn [final_core_f acc0 a_s]. rewrite core_roll_back_to, core_set_sync. apply sh_rb.
+Qed.
 
 Definition hashes (c : list header) : list Z := map hid c.
 
@@ -952,7 +1017,7 @@ Proof. intros G. pose proof (normA_wr c [] G) as H. exact H. Qed.
 Definition step_rel (P : params) (s : state) (o : op) (c c' : core) : Prop :=
   normA c c' \/
   (exists prev fs stop, o = OWriteCF prev fs stop /\ snd (write_cf prev fs stop s) = true /\ connB fs c c') \/
-  ((exists p now hs, o = OHeaders p now hs) /\ phantomC c c').
+  (headers_op o /\ phantomC c c').
 
 Lemma step_core P s o n sub0 : cinv n sub0 (core_of s) -> Z.of_nat (n + hdr_count o) <= 1000000 ->
   cinv (n + hdr_count o) sub0 (core_of (step P s o)) /\
@@ -961,11 +1026,14 @@ Proof.
   intros HC Hn. pose proof HC as (G & HL & _).
   assert (Hsame : forall c', c' = core_of s -> cinv (n + hdr_count o) sub0 c' /\ step_rel P s o (core_of s) c').
   { intros c' ->. split; [eapply cinv_mono; [|exact HC]; lia|]. left. apply normA_refl. exact G. }
-  destruct o as [p now hs|p now x|p st la full|p|prev fs stop|h|]; cbn [step hdr_count] in *.
+  destruct o as [p now hs|p now x|p st la full|p|prev fs stop|h| |p now hs k]; cbn [step hdr_count] in *.
   7:{ apply Hsame. apply core_restart. destruct G as [_ G]. cbn [core_of k_ftip k_fchain] in G. exact G. }
+  7:{ destruct (shape_step n (length hs) sub0 _ _ HC Hn (handle_headers_f_shape P now p hs k s)) as [H1 [H2|H2]].
+      - split; [exact H1|]. left. exact H2.
+      - split; [exact H1|]. right. right. split; [right; eauto|exact H2]. }
   - destruct (shape_step n (length hs) sub0 _ _ HC Hn (handle_headers_shape P now p hs s)) as [H1 [H2|H2]].
     + split; [exact H1|]. left. exact H2.
-    + split; [exact H1|]. right. right. split; [eauto|exact H2].
+    + split; [exact H1|]. right. right. split; [left; eauto|exact H2].
   - apply Hsame. apply core_handle_inv.
   - apply Hsame. rewrite core_new_peer. reflexivity.
   - apply Hsame. apply core_done_peer.
@@ -1548,6 +1616,85 @@ Proof.
     + eapply sh2_reorg; [exact H1|exact H2|lia].
 Qed.
 
+(* ---------- the same with a failing header-store write ---------- *)
+Definition final_state_f (P : params) (k' : Z) (o : outcome) : state :=
+  match o with
+  | Return s' => s'
+  | Continue a | Break a =>
+    if fault_hits k' a then a_s a
+    else
+      let s1 := write_headers (a_batch a) (a_s a) in
+      if a_recvcp a then set_cp (find_next_cp P (a_finalh a)) s1 else s1
+  end.
+
+Lemma final_state_f_core P k' o : core_of (final_state_f P k' o) = final_core_f k' o.
+Proof.
+  destruct o as [s'|a|a]; cbn [final_state_f final_core_f]; [reflexivity| |];
+    (destruct (fault_hits k' a); [reflexivity|]);
+    (destruct (a_recvcp a); [rewrite core_set_cp|]; apply core_write_headers).
+Qed.
+
+Lemma handle_headers_f_final P now p hs k s :
+  handle_headers_f P now p hs k s =
+  match hs with
+  | [] => s
+  | _ => if negb (headers_connected hs) then disconnect p s
+         else resync (final_state_f P (snd (loop_f P now p k (acc0 s) hs)) (fst (loop_f P now p k (acc0 s) hs)))
+  end.
+Proof.
+  unfold handle_headers_f. destruct hs as [|x t]; [reflexivity|].
+  destruct (negb _); [reflexivity|]. fold (acc0 s).
+  destruct (loop_f _ _ _ _ _ _) as [[s'|a|a] k']; reflexivity.
+Qed.
+
+Lemma lres2_final_f P safe c cp n o k' : Jcp P cp -> lres2 safe c cp [] n o ->
+  Jcp P (nextCp (final_state_f P k' o)) /\
+  (final_core_f k' o = c \/ (safe = false /\ exists pc, final_core_f k' o = rbto pc c) \/
+   (exists batch, (length batch <= n)%nat /\ final_core_f k' o = wr batch c)).
+Proof.
+  intros HJ [s' H1 H2|s' pc H0 H1 H2|a' more H1 H2 H3 H4 H5|a' more H1 H2 H3 H4 H5]; cbn [final_core_f final_state_f].
+  - split; [rewrite H2; exact HJ|]. left. exact H1.
+  - split; [rewrite H2; exact HJ|]. right. left. split; [exact H0|]. exists pc. exact H1.
+  - destruct (fault_hits k' a'); [split; [rewrite H2; exact HJ|left; exact H1]|]. split.
+    + rewrite H5. rewrite nextCp_write_headers, H2. exact HJ.
+    + right. right. exists more. rewrite H1, H3. split; [exact H4|reflexivity].
+  - destruct (fault_hits k' a'); [split; [rewrite H2; exact HJ|left; exact H1]|]. split.
+    + destruct (a_recvcp a') eqn:Erc.
+      * cbn [nextCp set_cp]. apply find_next_cp_J. specialize (H5 eq_refl). lia.
+      * rewrite nextCp_write_headers, H2. exact HJ.
+    + right. right. exists more. rewrite H1, H3. split; [exact H4|reflexivity].
+Qed.
+
+Theorem handle_headers_f_shape2 P now p hs k s : Jcp P (nextCp s) ->
+  hh_shape2 (core_of s) (length hs) (core_of (handle_headers_f P now p hs k s)) /\
+  Jcp P (nextCp (handle_headers_f P now p hs k s)).
+Proof.
+  intros HJ. rewrite handle_headers_f_final.
+  assert (Hsame : hh_shape2 (core_of s) (length hs) (core_of s)).
+  { apply (sh2_wr (core_of s) (length hs) []). cbn; lia. }
+  destruct hs as [|x t]; [split; [exact Hsame|exact HJ]|].
+  destruct (negb (headers_connected (x :: t))) eqn:Hc; [split; [exact Hsame|exact HJ]|].
+  apply negb_false_iff in Hc.
+  rewrite core_resync, nextCp_resync, final_state_f_core.
+  destruct (Faults.loop_f_cases P now p (x :: t) Hc k (acc0 s)) as [[k' ->]|(bh & rest & bH & h & _ & ->)];
+    cbn [fst snd].
+  - pose proof (loop_shape2 P now p (x :: t) (acc0 s) HJ eq_refl Hc) as HU.
+    cbn [acc0 a_s a_batch] in HU.
+    destruct HU as [o HL|bh backHead backH o m H1 H2 H3 HL].
+    + apply (lres2_final_f P _ _ _ _ _ k') in HL as [HJ' HL]; [|exact HJ]. split; [|exact HJ'].
+      destruct HL as [->|[[_ [pc ->]]|[batch [Hb ->]]]].
+      * exact Hsame.
+      * apply sh2_rb.
+      * apply sh2_wr. exact Hb.
+    + apply (lres2_final_f P _ _ _ _ _ k') in HL as [HJ' HL]; [|exact HJ]. split; [|exact HJ'].
+      destruct HL as [->|[[Hf _]|[batch [Hb ->]]]].
+      * apply (sh2_reorg _ _ bh backHead backH []); [exact H1|exact H2|cbn; lia].
+      * discriminate.
+      * eapply sh2_reorg; [exact H1|exact H2|lia].
+  - cbn [final_core_f final_state_f acc0 a_s]. rewrite core_roll_back_to, core_set_sync. split; [apply sh2_rb|].
+    rewrite nextCp_roll_back_to. exact HJ.
+Qed.
+
 Lemma shape2_embed c0 n c : hh_shape2 c0 n c -> hh_shape c0 n c.
 Proof.
   intros [batch Hb|pc|bh backHead backH batch Hf1 Hf2 Hb].
@@ -1573,7 +1720,8 @@ Definition step_rel2 (P : params) (s : state) (o : op) (c c' : core) : Prop :=
 
 Lemma step_J P s o : Jcp P (nextCp s) -> Jcp P (nextCp (step P s o)).
 Proof.
-  intros HJ. destruct o as [p now hs|p now x|p st la full|p|prev fs stop|h|]; cbn [step].
+  intros HJ. destruct o as [p now hs|p now x|p st la full|p|prev fs stop|h| |p now hs k]; cbn [step].
+  8:{ apply handle_headers_f_shape2. exact HJ. }
   7:{ unfold restart, chain_tip. destruct (last (chain s)) as [t|] eqn:Et; [|exact HJ].
       cbn [nextCp]. apply find_next_cp_J. unfold tip_height, zlen. destruct (chain s); [discriminate|]. cbn [length]. lia. }
   - apply handle_headers_shape2. exact HJ.
@@ -1589,12 +1737,15 @@ Lemma step_core2 P s o n sub0 : cinv n sub0 (core_of s) -> Jcp P (nextCp s) ->
   step_rel2 P s o (core_of s) (core_of (step P s o)).
 Proof.
   intros HC HJ Hn.
-  destruct (step_core P s o n sub0 HC Hn) as [_ [H|[H|[[p [now [hs ->]]] _]]]].
+  destruct (step_core P s o n sub0 HC Hn) as [_ [H|[H|[[(p & now & hs & ->)|(p & now & hs & k & ->)] _]]]].
   - left. exact H.
   - right. exact H.
   - left. cbn [step]. pose proof HC as (_ & HL & _).
     eapply (shape2_norm (length hs)); [apply HC|lia|].
     apply handle_headers_shape2. exact HJ.
+  - left. cbn [step]. pose proof HC as (_ & HL & _).
+    eapply (shape2_norm (length hs)); [apply HC|lia|].
+    apply handle_headers_f_shape2. exact HJ.
 Qed.
 
 Lemma run_J P ops : forall s, Jcp P (nextCp s) -> Jcp P (nextCp (run P s ops)).
@@ -1627,7 +1778,7 @@ Qed.
 Lemma no_phantom P gfh ops o : in_domain (ops ++ [o]) ->
   ~ ev_phantom o (reach P gfh ops) (step P (reach P gfh ops) o).
 Proof.
-  intros Hd [(p & now & hs & Ho) (x & k & m & Hx & Hm & Hk & Hc & Hf & He)].
+  intros Hd [Ho (x & k & m & Hx & Hm & Hk & Hc & Hf & He)].
   destruct (events_exact P gfh ops o Hd) as [[H1 H2]|H].
   - (* (A): the event list would have to contain the phantom disconnect *)
     rewrite Hc in H1. rewrite He in H1. apply app_inv_head in H1.
@@ -1640,7 +1791,8 @@ Proof.
     rewrite common_len_take in H1 by (rewrite take_length; lia).
     apply (f_equal length) in H1. unfold discs_from in H1.
     rewrite !app_length, !map_length, !reverse_length, !seq_length, !take_length in H1. cbn [length] in H1. lia.
-  - destruct H as (prev & fs & stop & Ho' & _). rewrite Ho' in Ho. discriminate.
+  - destruct H as (prev & fs & stop & Ho' & _). rewrite Ho' in Ho.
+    destruct Ho as [(p & now & hs & Ho)|(p & now & hs & k0 & Ho)]; discriminate.
 Qed.
 
 (* the formula the trace monitor checks, without exception *)
